@@ -235,4 +235,16 @@ def h_apply(I, st, fr, e, c, a):
     v = VRec(inv.IC, {"sources": ff(sizes, t_sum(sizes) + 1), "values": semi(vals)})
     inv.assume_inv(I, st, v)
     st.add_eq(t_len(sizes) - t_len(lt))
+    # call-site obligation: the labels and the inputs handed to `apply` describe the SAME operations in the same
+    # order (both are re-indexings along one selection of the operations)
+    from values import normalise, terms_equal, mk_arange, show_term
+
+    def selection(t):
+        t = normalise(st, t)
+        return t[2] if t[0] == "gather" else mk_arange(0, t_len(t))
+    isz = inputs.f["sources"].f["table"].t
+    ok = terms_equal(st, selection(lt), selection(isz))
+    I.oblige("ENS", fr, e, "eval: apply receives the labels and the inputs of the same operations (one selection, one order)",
+             f"selection of labels {show_term(selection(lt))[:120]} ≡ selection of input segments {show_term(selection(isz))[:120]}",
+             ok, "call-site" if ok else "", detail="" if ok else I.describe(st))
     return [(st, v, None)]
